@@ -34,6 +34,7 @@ inductive Res
   | allFailed (kind v : Nat)     -- hedge
   | notReady
   | other (code a b : Nat)
+  | custom (s : String)          -- middleware-specific error grammar, rendered verbatim
 deriving DecidableEq, Repr, Inhabited
 
 inductive Ev
@@ -65,6 +66,7 @@ def Res.render : Res → String
   | .allFailed k v => s!"err:all_failed:inner{k}:{v}"
   | .notReady => "notready"
   | .other c a b => s!"other:{c}:{a}:{b}"
+  | .custom s => s
 
 def Ev.render : Ev → String
   | .innerCall c k => s!"inner_call {c} {k}"
